@@ -519,8 +519,8 @@ def shrink_all(runner, fails):
 # ----------------------------------------------------------------------------- the check
 
 TIERS = {
-    "quick": dict(H=3, wide=False, sim=None, floor=300, gc_every=10, design=False),
-    "thorough": dict(H=4, wide=True, sim=(3000, 9, 20), floor=5000, gc_every=10, design=True),
+    "quick": dict(H=3, wide=[], sim=None, floor=300, gc_every=10, design=False),
+    "thorough": dict(H=4, wide=[1, 2, 3, 5, 6, 10, 14], sim=(1200, 9, 20), floor=5000, gc_every=10, design=True),
 }
 BASE_ACTIONS = ["GetHit", "GetMiss", "SetHit", "SetMiss", "NameHit", "NameMiss", "Define", "Delete", "SetProto", "PreventExt",
                 "Freeze", "Warm"]
@@ -536,7 +536,7 @@ CONSTANTS
   FixRollback = {F4}
   H = {H}
   CatSel = {{{cats}}}
-  Wide = {wide}
+  WideCats = {{{wide}}}
 {invs}
 CHECK_DEADLOCK FALSE
 """
@@ -549,7 +549,8 @@ def write_cfg(name, fixes, H, wide, invs, cats=None):
     switches of the implementation-shaped model follow what the probes find in the tree under test."""
     tf = lambda x: "TRUE" if x else "FALSE"
     text = CFG_TEMPLATE.format(F1=tf(fixes["F1"]), F2=tf(fixes["F2"]), F3=tf(fixes["F3"]), F4=tf(fixes["F4"]), H=H,
-                               cats=", ".join(str(c) for c in (cats or range(1, NCAT + 1))), wide=tf(wide),
+                               cats=", ".join(str(c) for c in (cats or range(1, NCAT + 1))),
+                               wide=", ".join(str(c) for c in wide),
                                invs="\n".join("INVARIANT " + i for i in invs))
     os.makedirs(os.path.join(vlib.WORK, "c06"), exist_ok=True)
     path = os.path.join(vlib.WORK, "c06", f"{name}-{os.getpid()}.cfg")
@@ -780,7 +781,7 @@ def run(tier, replay=None):
              f"({runner.replays} runs) in {time.time() - t0:.0f}s (TLC {r['wall']:.0f}s)")
     if conf["sim"]:
         num, hsim, depth = conf["sim"]
-        cfg = write_cfg(tier + "-sim", fixes, hsim, True, ["Emit"])
+        cfg = write_cfg(tier + "-sim", fixes, hsim, range(1, NCAT + 1), ["Emit"])
         r, n_sim = stream_tlc(cfg, tally, "simulate", workers=1, simulate=num, depth=depth, tseed=vlib.seed(), timeout=900)
         cmds.append(r["cmd"])
         ck.cov["simulated_histories"] = n_sim
